@@ -16,6 +16,9 @@
 //	shapes / exports (shapes.go, reported under objops and immprog): every nesting of mutable / immutable
 //	            array and map layers up to depth 4, frozen and attacked at every reachable container;
 //	            every export expression form with array and map payloads, attacked by the importer.
+//	derive (derive.go, reported under immprog): an immutable array spread into variadic closures (every
+//	            arity, every call form), builtins and host functions, or passed whole, and written through
+//	            whatever the callee received.
 //
 // Searcher (model independent): a snapshot of an immutable value changed although no mutable alias of
 // its storage existed when it became immutable (provenance tracked here); freeze(x) != x; freeze
@@ -151,6 +154,11 @@ func main() {
 		res.Write(f.Out)
 		return
 	}
+	if os.Getenv("C09_ONLY") == "derive" { // development aid: the call-derivation searcher alone
+		runDerive(lib.NewRNG(f.Seed).Fork(), f.Scale(400, 12000))
+		res.Write(f.Out)
+		return
+	}
 	for _, s := range corpusSeqs() {
 		runSeq(s, "objops")
 	}
@@ -158,6 +166,7 @@ func main() {
 	srng := lib.NewRNG(f.Seed)
 	runShapes(srng.Fork(), f.Scale(2, 6))
 	runExports(srng.Fork(), f.Scale(150, 3000))
+	runDerive(srng.Fork(), f.Scale(400, 12000))
 	rng := lib.NewRNG(f.Seed)
 	nSeq := f.Scale(3000, 60000)
 	for i := 0; i < nSeq; i++ {
@@ -237,6 +246,8 @@ func replay(path string) {
 			runFrozenProgram(in.Source, in.Modules, in.Host)
 		case in.Kind == "export-import":
 			runExportProgram(in.Source, in.Modules)
+		case in.Kind == "derive-call":
+			runDeriveProgram(in.Source, in.Modules["m"], "")
 		default:
 			runProgram(stream, in.Source, progModules(), []string{in.Global})
 		}
